@@ -45,7 +45,9 @@ func (c *ShipConnection) VerifFireTimeout() bool {
 		return false
 	}
 	c.stopHandshakeTimer()
-	c.handleState(true, nil)
+	if !c.isConnectionClosed() {
+		c.handleState(true, nil)
+	}
 	return true
 }
 
